@@ -76,16 +76,20 @@ where
                     };
                     acc
                 });
-        // Choose the group with the most members
-        if let Some((k, v)) = groups.iter().max_by_key(|c| c.1) {
-            if v > &1 {
-                // Found prefix is only useful if the group contains more than one member
-                k.to_vec()
-            } else {
-                vec![]
+        // Choose the group with the most members. Among equally large groups the one that occurs
+        // first in the candidates wins, so that the choice does not depend on the iteration order
+        // of the hash map.
+        let mut best: Option<(&[T], i32)> = None;
+        for c in &candidates_with_len_n {
+            let count = groups.iter().find(|(k, _)| *k == c).map_or(0, |(_, v)| *v);
+            if best.is_none_or(|(_, best_count)| count > best_count) {
+                best = Some((c, count));
             }
-        } else {
-            vec![]
+        }
+        match best {
+            // Found prefix is only useful if the group contains more than one member
+            Some((k, v)) if v > 1 => k.to_vec(),
+            _ => vec![],
         }
     }
 
